@@ -18,6 +18,7 @@
    of the three supports is present is the builder's.  [iv_inv] (IntVecProof.v): width in 1..64, len * width bits,
    raw invariant.  [oi_inv t B it] (OneIterProof.v): the invariant of OneIter<T>.
 
+   The run-length vector is covered by a theorem over its model (C08_no_oob_rl at the end of this file).
    Reduction for the other structures (not modelled in this file; checked by reading the source, see
    tools/props.d/C08.json for the list of every `unsafe` in /repo/src): SparseVector, RLVector, WaveletMatrix,
    WMCore and the ops traits contain no memory-unsafe operation of their own.  They index with `[]`,
@@ -323,3 +324,51 @@ Example C08_example_run :
   | _ => False
   end.
 Proof. vm_compute. repeat split. Qed.
+
+(* ================================================================ the run-length vector *)
+
+(* Names of Model/RL.v shadow those of Model/BitVec.v from here on. *)
+Require Import SDS.Spec.Deque SDS.Spec.IterRefs SDS.Model.RL SDS.Model.RLIters SDS.Spec.Runs SDS.Proofs.RLNoOob.
+
+(* rl_vector.rs and rl_vector/index.rs contain no memory-unsafe block of their own: every read goes through
+   IntVector::get / get_or (asserting: a miss is [Panic PIndex] in Model/IntVec.v) on `samples`, `data` and the
+   sample indexes; `unsafe` occurs only as the logical marker of set_bit_unchecked / set_run_unchecked. So an
+   out-of-bounds access is impossible by construction of the model, and the content of the theorem is the stronger
+   fact that none of those asserts fires either: on every vector built from a sorted run list (length up to
+   2^64-1, both modes), get / rank / rank_zero / select / select_zero return [Ok _] for EVERY argument, run_iter().
+   collect() returns, and from every entry point (run_iter, iter, one_iter, select_iter r, predecessor x,
+   successor x, zero_iter, select_zero_iter r; every r, x) every finite sequence of next / nth(k) / len calls
+   returns [Ok _] - never [OOB], never a panic, never exhausted fuel. *)
+Theorem C08_no_oob_rl : forall (m : mode) (R : list (N * N)) (L : N),
+  runs_sorted 0 R -> runs_end R <= L -> L <= 2 ^ 64 - 1 -> lenN R < 2 ^ 56 ->
+  exists v,
+    rl_build m (map (fun r => BTrySet (fst r) (snd r)) R ++ [BSetLen L]) = Ok (v, map (fun _ => true) R ++ [true]) /\
+    (forall i, exists b, rl_get m v i = Ok b) /\
+    (forall i, (exists x, rl_rank m v i = Ok x) /\ (exists x, rl_rank_zero m v i = Ok x)) /\
+    (forall r, (exists x, rl_select m v r = Ok x) /\ (exists x, rl_select_zero m v r = Ok x)) /\
+    (exists l, rl_runs m v = Ok l) /\
+    (forall cs, Forall (fun c => call_fwd c /\ c <> Len) cs ->
+       exists it res, rl_run_iter v = Ok it /\ it_run (rl_ri_step m v) it cs = Ok res) /\
+    (forall cs, Forall call_fwd cs -> exists s res, rl_iter v = Ok s /\ it_run (rl_bi_step m v) s cs = Ok res) /\
+    (forall e cs, Forall call_fwd cs ->
+       match rl_oi_entry m v e with
+       | Some start => exists s res, start = Ok s /\ it_run (rl_oi_step m v) s cs = Ok res
+       | None => True
+       end) /\
+    (forall e cs, Forall call_fwd cs ->
+       match rl_zi_entry m v e with
+       | Some start => exists s res, start = Ok s /\ it_run (rl_zi_step m v) s cs = Ok res
+       | None => True
+       end).
+Proof. exact rl_no_oob. Qed.
+Print Assumptions C08_no_oob_rl.
+
+(* non-vacuity: a vector of three blocks-worth of runs is built and walked *)
+Example C08_rl_example :
+  (let* (v, oks) := rl_build Release [BTrySet 3 2; BTrySet 5 1; BTrySet (2 ^ 40) 7; BSetLen (2 ^ 64 - 1)] in
+   let* a := rl_get Release v (2 ^ 64 - 1) in
+   let* s := rl_successor Release v 6 in
+   let* (_, b) := it_run (rl_oi_step Release v) s [Len; Nth (2 ^ 64 - 1); Next; Len] in
+   Ok (oks, a, b))
+  = Ok ([true; true; true; true], false, [Count 7; Item None; Item None; Count 0]).
+Proof. vm_compute. reflexivity. Qed.
